@@ -51,7 +51,7 @@ ENV.pop("RUSTFLAGS", None)
 class Harness:
     def __init__(self, name, tier="quick", timeout=300, mem=8, covers=1, desc="",
                  inputs="", bound="", expect="pass", finding=None, extra_args=None,
-                 unwind_failure_is_violation=False, thorough_timeout=None):
+                 unwind_failure_is_violation=False, thorough_timeout=None, unwindset=None):
         self.name = name
         self.tier = tier
         self.timeout = timeout
@@ -65,6 +65,9 @@ class Harness:
         self.extra_args = extra_args or []
         self.unwind_failure_is_violation = unwind_failure_is_violation
         self.thorough_timeout = thorough_timeout
+        # [(regex over "loop id: pretty function name", bound)]: per-loop bounds (CBMC --unwindset) that override the
+        # harness-wide #[kani::unwind]; loop ids are read from the freshly compiled GOTO binary on every run.
+        self.unwindset = unwindset or []
 
     @property
     def short(self):
@@ -169,6 +172,50 @@ def kani_cmd(crate, h, export_json, extra=None):
     return cmd
 
 
+def find_goto_binary(crate, h):
+    base = os.path.join(target_dir(crate), "kani")
+    best = None
+    pat = re.compile(r"proofs\d+%s\.out$" % re.escape(h.short))
+    for root, _dirs, files in os.walk(base):
+        for f in files:
+            if pat.search(f) and not f.endswith(".symtab.out"):
+                p = os.path.join(root, f)
+                if best is None or os.path.getmtime(p) > os.path.getmtime(best):
+                    best = p
+    return best
+
+
+def resolve_unwindset(crate, cwd, h, outdir):
+    """Map the harness' (regex, bound) pairs to CBMC loop ids of the current build. Returns (args, notes)."""
+    logf = os.path.join(outdir, h.short + ".codegen.log")
+    rc, _, _ = run_cmd(["cargo", "kani", "--target-dir", target_dir(crate), "--only-codegen", "--harness", h.name, "--exact"]
+                       + h.extra_args, cwd, 1800, 24, logf)
+    if rc != 0:
+        raise RuntimeError("codegen for unwindset failed (rc=%s)" % rc)
+    gb = find_goto_binary(crate, h)
+    if not gb:
+        raise RuntimeError("GOTO binary of %s not found" % h.name)
+    out = subprocess.run(["goto-instrument", "--show-loops", gb], capture_output=True, text=True, env=ENV).stdout
+    loops = []
+    cur = None
+    for line in out.splitlines():
+        m = re.match(r"^Loop (\S+):$", line)
+        if m:
+            cur = [m.group(1), ""]
+            loops.append(cur)
+        elif cur is not None and "function " in line:
+            cur[1] = line.strip()
+    pairs, notes = [], []
+    for pat, n in h.unwindset:
+        hits = [l for l in loops if re.search(pat, l[0] + ": " + l[1])]
+        if not hits:
+            raise RuntimeError("unwindset pattern %r matches no loop of %s" % (pat, h.name))
+        for l in hits:
+            pairs.append("%s:%d" % (l[0], n))
+        notes.append("%s -> %d loop(s) bounded to %d" % (pat, len(hits), n))
+    return ["-Z", "unstable-options", "--cbmc-args", "--unwindset", ",".join(pairs)], notes
+
+
 def classify(h, rc, logtext, js):
     """Return dict(status=..., ...). status in holds|failed|inconclusive."""
     res = {"status": "inconclusive", "reason": "", "failed_checks": [], "covers_total": 0,
@@ -257,7 +304,15 @@ def run_harness(crate, cwd, h, tier, outdir):
         import copy
         hh = copy.copy(h)
         hh.timeout = timeout
-    rc, wall, rss = run_cmd(kani_cmd(crate, hh, jsf), cwd, timeout, hh.mem, logf)
+    extra = None
+    uw_notes = []
+    if hh.unwindset:
+        try:
+            extra, uw_notes = resolve_unwindset(crate, cwd, hh, outdir)
+        except Exception as e:
+            return {"status": "inconclusive", "reason": str(e), "harness": h.name, "wall_s": 0, "peak_rss_mb": 0,
+                    "covers_total": 0, "covers_satisfied": 0, "properties": 0, "stats": {}, "failed_checks": [], "log": logf}
+    rc, wall, rss = run_cmd(kani_cmd(crate, hh, jsf, extra), cwd, timeout, hh.mem, logf)
     logtext = open(logf, errors="replace").read()
     js = None
     if os.path.exists(jsf):
@@ -266,7 +321,7 @@ def run_harness(crate, cwd, h, tier, outdir):
         except Exception:
             js = None
     res = classify(hh, rc, logtext, js)
-    res.update({"harness": h.name, "wall_s": round(wall, 2), "peak_rss_mb": rss // 1024, "log": logf})
+    res.update({"harness": h.name, "wall_s": round(wall, 2), "peak_rss_mb": rss // 1024, "log": logf, "unwindset": uw_notes})
     return res
 
 
@@ -368,6 +423,12 @@ def replay_counterexample(pid, crate, h, outdir):
     logf = os.path.join(outdir, h.short + ".playback-gen.log")
     cmd = ["cargo", "kani", "--target-dir", target_dir(crate), "--harness", h.name, "--exact",
            "-Z", "concrete-playback", "--concrete-playback=print"] + h.extra_args
+    if h.unwindset:
+        try:
+            extra, _ = resolve_unwindset(crate, scratch, h, outdir)
+            cmd += extra
+        except Exception:
+            pass
     rc, wall, _ = run_cmd(cmd, scratch, max(h.timeout * 2, 600), max(h.mem, 12), logf)
     text = open(logf, errors="replace").read()
     tests = extract_playback_tests(text)
@@ -608,6 +669,7 @@ def run_check(spec, tier, seed):
             "symex_s": st.get("runtime_symex_s"), "solver_s": st.get("runtime_decision_procedure_s"),
             "wall_s": r["wall_s"], "peak_rss_mb": r["peak_rss_mb"],
             "replay": r.get("replay"),
+            "per_loop_bounds": r.get("unwindset") or [],
         })
     ev = {
         "property_id": pid,
